@@ -1172,3 +1172,29 @@ equivalent("c09-eq-renamed-locals", "C09", (D, """        y_max = (y > 0) & (y =
         with warnings.catch_warnings():
             warnings.simplefilter("ignore")
             z = np.nanmean(candidates, axis=1).squeeze()"""))
+
+# ------------------------------------------------------------------------------------------ C14 helpers
+mutant("c14-parse-accepts-extra", "C14", (T, "        if len(values) == required + height:\n            return values", "        if len(values) >= required + height:\n            return values"), "T6/Term._parse/arity")
+mutant("c14-parse-default-height-zero", "C14", (T, "            values.append(1.0)\n", "            values.append(0.0)\n"), "T6/Term._parse/default-height")
+mutant("c14-parameters-height-first", "C14", (T, """        result: list[str] = []
+        if args:
+            result.extend(map(Op.str, args))
+        if not Op.is_close(self.height, 1.0):
+            result.append(Op.str(self.height))
+        return " ".join(result)""", """        result: list[str] = []
+        if not Op.is_close(self.height, 1.0):
+            result.append(Op.str(self.height))
+        if args:
+            result.extend(map(Op.str, args))
+        return " ".join(result)"""), "T6/Term._parameters/height-last")
+mutant("c14-variable-skips-last-term", "C14", (X, "            result += [(self.indent + self.term(term)) for term in variable.terms]\n        return self.separator.join(result)\n\n    def input_variable", "            result += [(self.indent + self.term(term)) for term in variable.terms[:-1]]\n        return self.separator.join(result)\n\n    def input_variable"), "T4/Variable/terms")
+equivalent("c14-eq-parse-restructured", "C14", (T, """        values = [to_float(x) for x in parameters.split()]
+        if height and len(values) == required:
+            values.append(1.0)
+        if len(values) == required + height:
+            return values""", """        values = [to_float(x) for x in parameters.split()]
+        expected = required + (1 if height else 0)
+        if len(values) == required and height:
+            values.append(1.0)
+        if not (len(values) != expected):
+            return values"""))
